@@ -16,6 +16,7 @@ type Bot implements Node { id: ID! model: String }
 union Actor = User | Bot
 input Filter { name: String limit: Int }
 type Query { me: User users(f: Filter): [User!] actor: Actor stamp: DateTime pair: User find(query: String, variables: Int): User }
+type Subscription { tick(f: Filter): User }
 """
 QUERIES = """
 fragment UserBits on User { id name }
@@ -28,6 +29,7 @@ fragment Inner on Query { stamp }
 fragment Outer on Query { me { id } ...Inner }
 query Nested { ...Outer }
 query Find($query: String, $variables: Int) { find(query: $query, variables: $variables) { id } }
+subscription OnTick($f: Filter) { tick(f: $f) { id name } }
 fragment OnlyMe on Query { me { id } }
 query ViaFragment { ...OnlyMe }
 """
@@ -40,6 +42,7 @@ RESPONSES = {
     "Nested": {"me": {"id": "1"}, "stamp": "2020-01-01T00:00:00"},
     "ViaFragment": {"me": {"id": "7"}},
     "Find": {"find": {"id": "9"}},
+    "OnTick": {"tick": {"id": "t1", "name": "tn"}},
 }
 PLUGINS = {
     "ShorterResults": "ariadne_codegen.contrib.shorter_results.ShorterResultsPlugin",
@@ -47,7 +50,7 @@ PLUGINS = {
     "ClientForwardRefs": "ariadne_codegen.contrib.client_forward_refs.ClientForwardRefsPlugin",
     "NoReimports": "ariadne_codegen.contrib.no_reimports.NoReimportsPlugin",
 }
-SINGLE_FIELD = {"GetMe": "me", "GetUsers": "users", "GetActor": "actor", "GetStamp": "stamp", "ViaFragment": "me", "Find": "find"}
+SINGLE_FIELD = {"GetMe": "me", "GetUsers": "users", "GetActor": "actor", "GetStamp": "stamp", "ViaFragment": "me", "Find": "find", "OnTick": "tick"}
 
 
 def _plain(v):
@@ -89,6 +92,24 @@ def drive(g):
     for op, (meth, kw) in calls.items():
         res = asyncio.run(getattr(client, meth)(**kw))
         out[op] = (_norm_request(sent[-1]), _plain(res))
+    # the subscription, against a scripted connection: the subscribe frame is its request, the yielded items its result
+    from unittest import mock
+    from . import lib_fakes as F
+    base = g.module("async_base_client")
+    ws = F.NativeWS([json.dumps({"type": "connection_ack"}), json.dumps({"type": "next", "payload": {"data": RESPONSES["OnTick"]}}),
+                     json.dumps({"type": "next", "payload": {"data": RESPONSES["OnTick"]}}), json.dumps({"type": "complete"})])
+
+    async def sub():
+        items = []
+        c = mod.Client(url="http://x/graphql", ws_url="ws://x/graphql")
+        with mock.patch.object(base, "ws_connect", lambda *a, **k: ws), mock.patch.object(base, "uuid4", lambda: "op-id"):
+            async for item in c.on_tick(f=inputs.Filter(limit=1)):
+                items.append(_plain(item))
+        return items
+    items = asyncio.run(sub())
+    frames = [json.loads(v) for k, v in ws.log if k == "ws_send"]
+    subscribe = next((f["payload"] for f in frames if f.get("type") == "subscribe"), {})
+    out["OnTick"] = (_norm_request(dict(subscribe)), items)
     return out
 
 
@@ -133,7 +154,7 @@ def check_combo(plugins, baseline=None):
                 rep["outcome"][op] = {"request": req, "unplugged": req0}
             expected = res0
             if "ShorterResults" in plugins and op in SINGLE_FIELD:
-                expected = res0[SINGLE_FIELD[op]]
+                expected = [x[SINGLE_FIELD[op]] for x in res0] if op == "OnTick" else res0[SINGLE_FIELD[op]]
             if res != expected:
                 rep["failed"].append(f"result[{op}]")
                 rep["outcome"][op] = {"result": res, "expected": expected}
@@ -187,7 +208,11 @@ def is_known_unshortened(rep):
     allowed = {f"result[{op}]" for op in SINGLE_FIELD}
     if not rep.get("failed") or not set(rep["failed"]) <= allowed:
         return False
-    return all(v.get("result") == {SINGLE_FIELD[op]: v.get("expected")} for op, v in (rep.get("outcome") or {}).items() if op in SINGLE_FIELD)
+    def unshortened(op, v):
+        if op == "OnTick":
+            return v.get("result") == [{SINGLE_FIELD[op]: x} for x in (v.get("expected") or [])]
+        return v.get("result") == {SINGLE_FIELD[op]: v.get("expected")}
+    return all(unshortened(op, v) for op, v in (rep.get("outcome") or {}).items() if op in SINGLE_FIELD)
 
 
 def witness_unshortened():
